@@ -30,7 +30,7 @@ ASSUMPTIONS = [
     " are not asserted (counted)",
 ]
 BUDGET = {
-    "quick": {"examples": 192, "shards": 16, "cap_s": 150, "shrink_calls": 25, "shrink_s": 120, "case_timeout_s": 40},
+    "quick": {"examples": 160, "shards": 16, "cap_s": 120, "shrink_calls": 25, "shrink_s": 120, "case_timeout_s": 30},
     "thorough": {"examples": 3000, "shards": 16, "cap_s": 2400, "shrink_calls": 100, "shrink_s": 300, "case_timeout_s": 300},
 }
 
@@ -90,7 +90,7 @@ def strategy(tier):
                 "event_seed": es, "coupling_seed": cs}
 
     target = st.tuples(
-        st.integers(0, 2), st.integers(0, 1), st.integers(1, 2), st.sampled_from([1, -1]), _rotation(),
+        st.integers(0, 2), st.integers(0, 1), st.integers(1, 2 if thorough else 1), st.sampled_from([1, -1]), _rotation(),
         st.integers(0, 2**31 - 1), st.integers(0, 2**31 - 1), st.booleans(),
     ).map(targeted)
     generic = rs.flatmap(with_config)
